@@ -197,3 +197,8 @@ func (t *InternalTransport) VerifTakeSent() [][]byte {
 		}
 	}
 }
+
+// VerifSetNextSequence sets the next fragment sequence number of the link service (a link
+// service that has been up for long enough gets anywhere in the 64-bit range, including
+// across its wrap).
+func (l *NDNLPLinkService) VerifSetNextSequence(v uint64) { l.nextSequence = v }
